@@ -21,8 +21,11 @@ from ..simrun import Sim
 
 ID = 'C02'
 RULE = ("a sender block (custom SBlock calling set_output from its init, from an event handler or directly; "
-        "or a FuncBlock evaluated by the real simulator task, its function returning the next value of the "
-        "sequence) with 0..3 on_output and 0..3 on_every_output events (given as None / single Event / list / "
+        "a FuncBlock evaluated by the real simulator task, its function returning the next value of the "
+        "sequence; or an FSM: InputExp (puts of equal/different values, expiry on the virtual clock), Timer (start/"
+        "stop/toggle, re-triggering, restartable or not, timed transitions) and a generic FSM whose states share "
+        "outputs 1/True/1.0, with a state leaving the output alone and a chained transition -- every accepted "
+        "top-level transition, recorded in-process independently of set_output, is one assignment of calc_output()) with 0..3 on_output and 0..3 on_every_output events (given as None / single Event / list / "
         "tuple) to 4 recording SBlocks, with and without filter pipelines built from scripts (accept, reject, "
         "set/delete/copy a key -- returning the dict, a new mapping (dict / UserDict / ChainMap) or mutating in "
         "place --, accept-if-truthy, not-from-UNDEF, clear (d.clear() / return {} / delete every key: an EMPTY "
@@ -120,18 +123,8 @@ def _hook_queue(circuit):
     q._c02_hooked = True
 
 
-class Src(edzed.SBlock):
-    """sequential sender; every set_output call is bracketed by begin/end markers"""
-
-    def __init__(self, *args, first, **kwargs):
-        self._first = first
-        super().__init__(*args, **kwargs)
-
-    def init_regular(self):
-        self.set_output(self._first)
-
-    def _event_set(self, *, value, **_data):
-        self.set_output(value)
+class Marked:
+    """mixin: every set_output call is bracketed by begin/end markers"""
 
     def set_output(self, value):
         _hook_queue(self.circuit)
@@ -144,6 +137,97 @@ class Src(edzed.SBlock):
             raise
         finally:
             LOG.append(('end', self._output, None, exc))
+
+
+class Src(Marked, edzed.SBlock):
+    """sequential sender assigning from its init, from an event handler or on direct calls"""
+
+    def __init__(self, *args, first, **kwargs):
+        self._first = first
+        super().__init__(*args, **kwargs)
+
+    def init_regular(self):
+        self.set_output(self._first)
+
+    def _event_set(self, *, value, **_data):
+        self.set_output(value)
+
+
+# ---- FSM based senders: every accepted top-level transition of an FSM is ONE output assignment
+#      (value = calc_output() of the state reached), whether the value changed or not
+
+def mark(blk):
+    """bracket the set_output calls of a LIBRARY FSM instance with begin/end markers.
+    (Not by subclassing: FSM.__init_subclass__ collects cond_/enter_/exit_ methods from vars(cls) only,
+    a subclass of InputExp / Timer silently loses cond_put / cond_start / cond_stop.)"""
+    cls = type(blk)
+
+    def set_output(value):
+        _hook_queue(blk.circuit)
+        LOG.append(('begin', value, blk._output))
+        exc = None
+        try:
+            cls.set_output(blk, value)
+        except Exception as err:
+            exc = err
+            raise
+        finally:
+            LOG.append(('end', blk._output, None, exc))
+    blk.set_output = set_output
+    return blk
+
+
+GEN_OUT = {'a': 'i1', 'b': 'b1', 'c': 'i0', 'd': 'f1/1', 'e': 'i1', 'h': 's68', 'u': 'u'}
+
+
+class MGen(Marked, edzed.FSM):
+    """generic FSM: several states share an output (1 / True / 1.0 / 1), state `u` leaves the output
+    alone (calc_output -> UNDEF), entering `h` chains on to `a` (one assignment for the whole chain)"""
+    STATES = ['a', 'b', 'c', 'd', 'e', 'h', 'u']
+    EVENTS = [
+        ('next', 'a', 'b'), ('next', 'b', 'c'), ('next', 'c', 'd'), ('next', 'd', 'e'), ('next', 'e', 'a'),
+        ('next', 'u', 'a'),
+        ('toA', None, 'a'), ('toB', None, 'b'), ('toE', None, 'e'), ('toU', None, 'u'), ('hop', None, 'h'),
+        ('onlyA', 'a', 'c'),
+        ('guarded', None, 'd'),
+    ]
+
+    def cond_guarded(self):
+        return self._state in ('a', 'b')
+
+    def enter_h(self):
+        self.event('toA')
+
+    def calc_output(self):
+        return dec(GEN_OUT[self._state])
+
+
+GEN_EVENTS = ['next', 'toA', 'toB', 'toE', 'toU', 'hop', 'onlyA', 'guarded']
+
+_orig_ctx_event = edzed.FSM._ctx_event
+
+
+def _ctx_event(self, etype, data):
+    """records every top-level transition of the sender: accepted or not, the state reached and
+    the value calc_output() gives for it -- independently of set_output being called"""
+    if self is not CTX['sender'] or self._fsm_event_active:
+        return _orig_ctx_event(self, etype, data)
+    LOG.append(('tbegin', self._output, self._state))
+    ok, exc = None, None
+    try:
+        ok = _orig_ctx_event(self, etype, data)
+        return ok
+    except Exception as err:
+        exc = err
+        raise
+    finally:
+        val = UNDEF
+        if ok and exc is None:
+            val = self.calc_output()
+        LOG.append(('tend', bool(ok), val, self._state, self._output, exc))
+
+
+edzed.FSM._ctx_event = _ctx_event           # process-local wrapper
 
 
 _orig_eval_block = edzed.CBlock.eval_block
@@ -365,12 +449,65 @@ def scenarios(rng, tier):
                    'ops': ['i1', 'b1', 'i0', 't[]']}
             yield {'kind': 'C', 'on': [plain, ev], 'every': [], 'forms': ['auto', 'auto'], 'via': 'sim',
                    'ops': ['i1', 'b1', 'i0', 't[]']}
+    yield from fsm_fixed(tier)
+    for k in range(nrandom // 3):
+        yield fsm_random(rng, 40)
     for k in range(nrandom):
         yield random_scenario(rng, maxlen)
 
 
 def _valid(scn):
+    if scn['kind'] == 'F':
+        return True
     return bool(scn['ops']) and scn['ops'][0] != 'u'
+
+
+# ---- FSM based senders
+
+TIMER_CFGS = [{'t_on': None, 't_off': None}, {'t_on': 0.5, 't_off': None}, {'t_on': 0.5, 't_off': 0.7}]
+TIMER_OPS = [['ev', 'start'], ['ev', 'stop'], ['ev', 'toggle'], ['wait', 600000]]
+IEXP_OPS = [['put', 'i1'], ['put', 'b1'], ['put', 'f1/1'], ['put', 'i0'], ['wait', 1500000]]
+
+
+def fsm_scenario(fsm, cfg, ops, non=1, nev=1, on=None, every=None):
+    return {'kind': 'F', 'fsm': fsm, 'cfg': cfg, 'on': mk_events('o', non) if on is None else on,
+            'every': mk_events('e', nev) if every is None else every, 'forms': ['auto', 'auto'], 'via': fsm,
+            'ops': [list(o) for o in ops]}
+
+
+def fsm_fixed(tier):
+    n = 4 if tier == 'quick' else 5
+    for seq in itertools.product(TIMER_OPS, repeat=n):
+        for cfg in TIMER_CFGS:
+            for restartable in (True, False):
+                yield fsm_scenario('timer', {**cfg, 'restartable': restartable}, seq)
+    for seq in itertools.product(IEXP_OPS, repeat=n):
+        for expired, initdef in (('n', 'u'), ('i0', 'i1'), ('b0', 'u')):
+            yield fsm_scenario('inputexp', {'duration': 1.0, 'expired': expired, 'initdef': initdef}, seq)
+    for seq in itertools.product([['ev', e] for e in GEN_EVENTS], repeat=n if tier == 'quick' else 4):
+        yield fsm_scenario('gen', {'initdef': 'a'}, seq)
+
+
+def fsm_random(rng, maxlen):
+    fsm = rng.choice(['timer', 'inputexp', 'gen'])
+    n = rng.choice([1, 2, 3, 5, 8, 13, maxlen])
+    if fsm == 'timer':
+        cfg = {**rng.choice(TIMER_CFGS), 'restartable': rng.random() < 0.6}
+        ops = [rng.choice(TIMER_OPS[:3] + [['wait', rng.choice([100000, 499999, 500000, 600000, 700000, 1300000])]])
+               for _ in range(n)]
+    elif fsm == 'inputexp':
+        cfg = {'duration': rng.choice([1.0, 0.25]), 'expired': rng.choice(['n', 'i0', 'b0', 's', 't[]']),
+               'initdef': rng.choice(['u', 'i1', 'n', 't[]'])}
+        pool = rng.choice([SIX, MORE, ['i1', 'b1', 'f1/1'], ['i0', 'b0', 'n', 't[]', 's']])
+        ops = [(['put', rng.choice(pool)] if rng.random() < 0.8 else
+                ['wait', rng.choice([100000, 249999, 250000, 600000, 1000000, 1500000])]) for _ in range(n)]
+    else:
+        cfg = {'initdef': rng.choice(['a', 'b', 'c', 'e', 'd'])}
+        ops = [['ev', rng.choice(GEN_EVENTS)] for _ in range(n)]
+    base = random_scenario(rng, 3)
+    while base['kind'] != 'S':
+        base = random_scenario(rng, 3)
+    return fsm_scenario(fsm, cfg, ops, on=base['on'], every=base['every'] or mk_events('e', 1))
 
 
 def shrink(scn):
@@ -402,7 +539,7 @@ def run_impl(scn):
     kind = scn['kind']
     ops = scn['ops']
     assert _valid(scn), 'scenario needs a first value that is not UNDEF'
-    name = 's' if kind == 'S' else 'f'
+    name = 'f' if kind == 'C' else 's'
     del LOG[:]
     CTX['sender'] = None
     info = {}
@@ -414,6 +551,19 @@ def run_impl(scn):
         if kind == 'S':
             every = make_events(scn['every'], 'e', scn['forms'][1], probes)
             blk = Src(name, first=dec(ops[0]), on_output=on, on_every_output=every)
+            CTX['sender'] = blk
+            return blk
+        if kind == 'F':
+            every = make_events(scn['every'], 'e', scn['forms'][1], probes)
+            cfg = scn['cfg']
+            if scn['fsm'] == 'inputexp':
+                blk = mark(edzed.InputExp(name, duration=cfg['duration'], expired=dec(cfg['expired']),
+                                          initdef=dec(cfg['initdef']), on_output=on, on_every_output=every))
+            elif scn['fsm'] == 'timer':
+                blk = mark(edzed.Timer(name, t_on=cfg['t_on'], t_off=cfg['t_off'], restartable=cfg['restartable'],
+                                       on_output=on, on_every_output=every))
+            else:
+                blk = MGen(name, initdef=cfg['initdef'], on_output=on, on_every_output=every)
             CTX['sender'] = blk
             return blk
 
@@ -442,6 +592,14 @@ def run_impl(scn):
                     edzed.ExtEvent(blk, 'set').send(v)
                 if i % 7 == 3:
                     await vtime.settle(sim.loop)
+        elif kind == 'F':
+            for op in ops:
+                if op[0] == 'wait':
+                    await vtime.advance_to(sim.loop, sim.loop.now_us + op[1])
+                elif op[0] == 'put':
+                    edzed.ExtEvent(blk, 'put').send(dec(op[1]))
+                else:
+                    edzed.ExtEvent(blk, op[1]).send()
         else:
             settle = scn.get('settle') or []
             await vtime.settle(sim.loop)
@@ -466,12 +624,36 @@ def run_impl(scn):
 
     # cut the log into assignments
     assignments, stray, cur = [], [], None
+    trans, ntrans = None, 0
     for rec in log:
         tag = rec[0]
-        if tag == 'begin':
+        if tag == 'tbegin':
+            trans = {'before': rec[1], 'n0': len(assignments)}
+        elif tag == 'tend':
+            _t, ok, val, _state, output, exc = rec
+            inside = assignments[trans['n0']:] if trans is not None else []
+            if exc is not None:
+                stray.append(('transition-raised', rec))
+            elif ok and val is not UNDEF:
+                ntrans += 1
+                if not inside:
+                    # the FSM made a transition but never assigned its output: a phantom record keeps
+                    # the assignment in the history that model and oracle see
+                    assignments.append({'value': val, 'before': trans['before'], 'recs': [], 'has_value': True,
+                                        'after': output, 'ret': None, 'exc': None, 'phantom': True})
+                elif len(inside) > 1 or not same(inside[0]['value'], val):
+                    stray.append(('transition-assigned', [enc(a['value']) for a in inside], 'expected', enc(val)))
+            elif inside:
+                stray.append(('assignment-without-transition', [enc(a['value']) for a in inside]))
+            elif ok:
+                assignments.append({'skip': True})      # accepted, calc_output() is UNDEF: output left alone
+            trans = None
+        elif tag == 'begin':
+            if kind == 'F' and trans is None:
+                stray.append(('assignment-outside-transition', rec))
             if cur is not None:
                 stray.append(('nested-begin', rec))
-            cur = {'value': rec[1], 'before': rec[2], 'recs': [], 'has_value': kind == 'S'}
+            cur = {'value': rec[1], 'before': rec[2], 'recs': [], 'has_value': kind != 'C'}
         elif tag == 'end':
             if cur is None:
                 stray.append(('end-without-begin', rec))
@@ -491,17 +673,23 @@ def run_impl(scn):
     if cur is not None:
         stray.append(('unfinished', cur))
 
-    lines = [f"output reset {kind} {name} {evs_token(scn['on'], 'o')} {evs_token(scn['every'] if kind == 'S' else [], 'e')}"]
+    lines = [f"output reset {'C' if kind == 'C' else 'S'} {name} {evs_token(scn['on'], 'o')} "
+             f"{evs_token(scn['every'] if kind != 'C' else [], 'e')}"]
     trace = ['ok']
     ndeliv = 0
-    for a in assignments:
+    records, assignments = assignments, [a for a in assignments if not a.get('skip')]
+    for a in records:
+        if a.get('skip'):
+            lines.append('output fsm u')
+            trace.append('skip')
+            continue
         if not a['has_value']:
             raise RuntimeError('eval_block without calc_output')
-        lines.append('output assign ' + enc(a['value']))
+        lines.append(('output fsm ' if kind == 'F' else 'output assign ') + enc(a['value']))
         if a['exc'] is not None:
             t = 'err ' + ('ValueError' if isinstance(a['exc'], ValueError) else type(a['exc']).__name__)
         else:
-            t = f"ok {enc(a['after'])} r{'-' if kind == 'S' else int(bool(a['ret']))}"
+            t = f"ok {enc(a['after'])} r{'-' if kind != 'C' else int(bool(a['ret']))}"
         for rec in a['recs']:
             if rec[0] != 'fr':
                 t += ' ' + act_str(rec)
@@ -518,14 +706,17 @@ def run_impl(scn):
                for (x, a), (y, b) in zip(zip(vals, assignments), zip(vals[1:], assignments[1:])))
     nfil = sum(1 for e in scn['on'] + scn['every'] if e.get('filters'))
     n = len(ops)
-    tags = [f'kind={kind}', f"fanout_on={len(scn['on'])}", f"fanout_every={len(scn['every']) if kind == 'S' else 0}",
+    tags = [f'kind={kind}', f"fanout_on={len(scn['on'])}", f"fanout_every={len(scn['every']) if kind != 'C' else 0}",
             'filters=' + ('yes' if nfil else 'no'), f"via={scn.get('via')}",
             'len=' + ('1-4' if n <= 4 else '5-8' if n <= 8 else '9-30' if n <= 30 else '31+'),
             'equal_not_identical=' + ('yes' if eqni else 'no'),
             'undef_assigned=' + ('yes' if 'u' in vals else 'no')]
+    if kind == 'F':
+        unchanged = sum(1 for a in assignments if a['before'] == a['value'])
+        tags += [f"fsm={scn['fsm']}", 'fsm_unchanged_transitions=' + ('yes' if unchanged else 'no')]
     return {'lines': lines, 'trace': trace, 'tags': tags, 'nontrivial': ndeliv > 0,
             'assignments': assignments, 'stray': stray, 'name': name, 'final': info['final'],
-            'planned': len(ops)}
+            'planned': len(ops), 'transitions': ntrans}
 
 
 def act_str(rec):
@@ -552,12 +743,17 @@ def oracle(scn, res):
     kind = scn['kind']
     name = res['name']
     on = scn['on']
-    every = scn['every'] if kind == 'S' else []
+    every = scn['every'] if kind != 'C' else []
     conf = {('o', i): e for i, e in enumerate(on)}
     conf.update({('e', i): e for i, e in enumerate(every)})
     asg = res['assignments']
 
-    if res['stray']:
+    if res['stray'] and res['stray'][0][0] in ('transition-assigned', 'assignment-without-transition',
+                                                'assignment-outside-transition', 'transition-raised'):
+        out_v.append(_v('fsm_transition_is_one_assignment',
+                        f'an accepted top-level FSM transition must assign calc_output() of the new state exactly '
+                        f'once, other events nothing: {res["stray"][0]!r:.300}'))
+    elif res['stray']:
         out_v.append(_v('synchronous_delivery',
                         f'{len(res["stray"])} record(s) outside an assignment, first: {res["stray"][0]!r:.300}'))
     if kind == 'S' and len(asg) != res['planned']:
@@ -572,6 +768,12 @@ def oracle(scn, res):
         v = a['value']
         where = f'assignment #{k} ({enc(v)})'
         recs = [r for r in a['recs'] if r[0] != 'fr']
+        if a.get('phantom') and (every or not (cur == v)):
+            out_v.append(_v('every_output_one_per_assignment',
+                            f'{where}: the FSM made an accepted transition to a state whose output is {v!r} but did '
+                            f'not assign it (no set_output call; output before {a["before"]!r}): its '
+                            f'{len(every)} on_every_output event(s) were not sent'))
+            break
         if a['before'] is not cur:
             out_v.append(_v('stored_output', f'{where}: output before is {a["before"]!r}, expected the object {cur!r}'))
             break
@@ -597,7 +799,7 @@ def oracle(scn, res):
             break
         # enqueue: exactly when changed, before anything is sent
         nq = sum(1 for r in recs if r[0] == 'q')
-        if nq != (1 if changed and kind == 'S' else 0) or (nq and recs[0][0] != 'q'):
+        if nq != (1 if changed and kind != 'C' else 0) or (nq and recs[0][0] != 'q'):
             out_v.append(_v('enqueue_iff_changed', f'{where}: changed={changed}, queue records={nq}, '
                             f'first record {recs[0][0] if recs else None}'))
             break
